@@ -187,6 +187,8 @@ pub fn child_main<S>(
 ) -> ! {
     let text = std::fs::read_to_string(infile).expect("batch file");
     let j: serde_json::Value = serde_json::from_str(&text).expect("batch json");
+    // the parent can ask for a longer limit (when it re-runs a suspected culprit on its own)
+    let per_item_secs = j["common"]["limit_secs"].as_u64().unwrap_or(per_item_secs);
     let out = Arc::new(Mutex::new(std::fs::File::create(outfile).expect("child out file")));
     let started = Arc::new(AtomicU64::new(u64::MAX));
     let current = Arc::new(AtomicUsize::new(0));
